@@ -56,6 +56,47 @@ pub struct Sc {
 pub struct E3Engine;
 pub static E3: E3Engine = E3Engine;
 
+thread_local! {
+    /// C20: seed of the RNG-seam stream behind the constructor (None: the scenario's own)
+    static CTOR_SEED: RefCell<Option<u64>> = RefCell::new(None);
+    /// C20: what the guest and the host can observe of a run, in order
+    static TRACE: RefCell<Option<Vec<String>>> = RefCell::new(None);
+}
+
+fn trace_push(s: String) {
+    TRACE.with(|t| {
+        if let Some(v) = t.borrow_mut().as_mut() {
+            v.push(s);
+        }
+    });
+}
+
+/// C20, syscall part: the same guest program against the built-in handlers on two machines whose
+/// constructors drew different random register contents (descriptor draws are served identically).
+pub fn run_c20(sc: &Sc, ctx: &mut Ctx) {
+    let mut traces: Vec<Vec<String>> = Vec::new();
+    for seed in [sc.rng_seed ^ 0xA1, sc.rng_seed ^ 0xB2_0000] {
+        CTOR_SEED.with(|c| *c.borrow_mut() = Some(seed));
+        TRACE.with(|t| *t.borrow_mut() = Some(Vec::new()));
+        let mut scratch = Ctx::new();
+        run("C20", sc, &mut scratch);
+        ctx.guest_steps += scratch.guest_steps;
+        ctx.events += scratch.events;
+        ctx.hist = scratch.hist;
+        ctx.harness_errors.extend(scratch.harness_errors);
+        traces.push(TRACE.with(|t| t.borrow_mut().take()).unwrap_or_default());
+    }
+    CTOR_SEED.with(|c| *c.borrow_mut() = None);
+    ctx.nontrivial = true;
+    ctx.fault("rng_stream_varied");
+    if traces[0] != traces[1] {
+        let k = traces[0].iter().zip(traces[1].iter()).position(|(a, b)| a != b).unwrap_or(traces[0].len().min(traces[1].len()));
+        let what = traces[0].get(k).map(|s| s.split(':').next().unwrap_or("?").to_string()).unwrap_or_else(|| "length".into());
+        ctx.dev("C20", format!("C20|sys|{}|{what}", sc.kind), format!("two machines given the same program and syscalls diverge at observation {k}: {:?} vs {:?}", traces[0].get(k), traces[1].get(k)));
+    }
+    ctx.log_u64(crate::rng::fnv1a(traces[0].join("|").as_bytes()));
+}
+
 // ------------------------------------------------------------------------------------------
 // generator
 // ------------------------------------------------------------------------------------------
@@ -132,7 +173,7 @@ fn gen_pipe(r: &mut Rng, thorough: bool) -> Sc {
     Sc { kind: "pipe".into(), ops, blockers: vec![], rng_values: vals, rng_seed: r.next(), user_hook: r.pick(&["after", "after", "before", "none"]).to_string(), src_seed: r.next() }
 }
 
-fn gen_brk(r: &mut Rng, thorough: bool) -> Sc {
+fn gen_brk(r: &mut Rng, thorough: bool, big: bool) -> Sc {
     let n_ops = if thorough { r.range(4, 50) } else { r.range(4, 24) };
     let mut ops = vec![Op::Brk0];
     let max_grow: i64 = *r.pick(&[0x100i64, 0x1000, 0x3000, 0x10000, 0x100000, 0x1000000]);
@@ -179,6 +220,11 @@ fn gen_brk(r: &mut Rng, thorough: bool) -> Sc {
         if !blockers.iter().any(|b| intersects(start, len, b.0, b.1)) {
             blockers.push((start, len));
         }
+    }
+    if big {
+        // a long run of occupied probe slots in front of the heap: 256 KiB .. 2 MiB from the first probe address
+        blockers.retain(|b| b.0 >= 0x40_0000);
+        blockers.insert(0, (0x1000, *r.pick(&[0x4_0000u64, 0x10_0000, 0x1F_0000])));
     }
     Sc { kind: "brk".into(), ops, blockers, rng_values: vec![], rng_seed: r.next(), user_hook: r.pick(&["after", "none", "none"]).to_string(), src_seed: r.next() }
 }
@@ -327,7 +373,7 @@ pub fn run(_prop: &str, sc: &Sc, ctx: &mut Ctx) {
             return;
         }
     };
-    install_ax_rng_values(vec![], sc.rng_seed);
+    install_ax_rng_values(vec![], CTOR_SEED.with(|c| *c.borrow()).unwrap_or(sc.rng_seed));
     let mut ax = match catch(|| Axecutor::new(&code, CODE, CODE)) {
         Ok(Ok(a)) => a,
         _ => {
@@ -394,6 +440,15 @@ pub fn run(_prop: &str, sc: &Sc, ctx: &mut Ctx) {
         run_brk(sc, &mut ax, &marks, &seen, ctx);
     }
     ctx.log_u64(observe(&ax).digest());
+    {
+        let mut ext = ax.verif_area_extents();
+        ext.sort();
+        trace_push(format!("areas:{ext:?}"));
+        let o = observe(&ax);
+        // RAX is written by every program; the other registers only by some (and are compared per operation where they are)
+        trace_push(format!("final:{:x}:{:x}:{}:{}", o.rip, o.gpr[0], o.executed, o.finished));
+        trace_push(format!("mem:{:?}", o.areas.iter().map(|a| a.3).collect::<Vec<_>>()));
+    }
     set_dispatch(None);
 }
 
@@ -444,6 +499,7 @@ fn run_pipe(sc: &Sc, ax: &mut Axecutor, marks: &[u64], seen: &Rc<RefCell<Vec<(u6
         let ok = matches!(out, StepOut::Ok(_));
         let after = area_snapshot(ax);
         let rax_after = ax.reg_read_64(SR::RAX).unwrap_or(0);
+        trace_push(format!("sys{rax}:{}:{rax_after:x}", match &out { StepOut::Ok(_) => "ok".to_string(), StepOut::Err(e) => format!("err:{e}"), StepOut::Panic(p) => format!("panic:{}", p.class()) }));
         let user_saw: Vec<(u64, u64)> = seen.borrow()[seen_before..].to_vec();
         let oc = match &out {
             StepOut::Ok(_) => "ok".to_string(),
@@ -732,6 +788,7 @@ fn run_brk(sc: &Sc, ax: &mut Axecutor, marks: &[u64], _seen: &Rc<RefCell<Vec<(u6
             return;
         }
         let rax_after = ax.reg_read_64(SR::RAX).unwrap_or(0);
+        trace_push(format!("brk_op:{}:{:x}:{:x}", match &out { StepOut::Ok(_) => "ok".to_string(), StepOut::Err(e) => format!("err:{e}"), StepOut::Panic(p) => format!("panic:{}", p.class()) }, if matches!(op, Op::Brk0 | Op::BrkRel { .. }) { rax_after } else { 0 }, if matches!(op, Op::Load { .. }) && matches!(out, StepOut::Ok(_)) { ax.reg_read_64(SR::RCX).unwrap_or(0) } else { 0 }));
         match op {
             Op::Brk0 => {
                 ctx.event(&format!("brk0:{oc}"), "");
@@ -889,7 +946,11 @@ impl Engine for E3Engine {
         "E3 sys-sim"
     }
     fn runs(&self, prop: &str, thorough: bool) -> u64 {
-        let base = if prop == "C13" { 60_000 } else { 80_000 };
+        let base = match prop {
+            "C13" => 60_000,
+            "C20" => 12_000,
+            _ => 80_000,
+        };
         if thorough {
             base * 20
         } else {
@@ -898,12 +959,28 @@ impl Engine for E3Engine {
     }
     fn gen(&self, prop: &str, thorough: bool, seed: u64, idx: u64) -> Value {
         let mut r = Rng::new(mix(seed, prop, idx));
-        let sc = if prop == "C13" { gen_brk(&mut r, thorough) } else { gen_pipe(&mut r, thorough) };
+        let sc = match prop {
+            "C13" => gen_brk(&mut r, thorough, idx % 10 == 3),
+            "C20" => {
+                if idx % 2 == 0 {
+                    gen_brk(&mut r, thorough, idx % 4 == 0)
+                } else {
+                    gen_pipe(&mut r, thorough)
+                }
+            }
+            _ => gen_pipe(&mut r, thorough),
+        };
         serde_json::to_value(sc).unwrap()
     }
     fn exec(&self, prop: &str, sc: &Value, ctx: &mut Ctx) {
         match serde_json::from_value::<Sc>(sc.clone()) {
-            Ok(s) => run(prop, &s, ctx),
+            Ok(s) => {
+                if prop == "C20" {
+                    run_c20(&s, ctx)
+                } else {
+                    run(prop, &s, ctx)
+                }
+            }
             Err(e) => ctx.harness_errors.push(format!("bad E3 scenario: {e}")),
         }
     }
